@@ -2,7 +2,10 @@
 // SPDX-License-Identifier: GPL-2.0-only
 
 use clock_bound_shm::common::{clock_gettime_safe, CLOCK_MONOTONIC};
+#[cfg(not(feature = "verif"))]
 use chrony_candm::blocking_query_uds;
+#[cfg(feature = "verif")]
+use crate::verif::blocking_query_uds;
 use chrony_candm::reply::{ReplyBody, Tracking};
 use chrony_candm::request::RequestBody;
 use chrony_candm::ClientOptions;
@@ -588,5 +591,44 @@ mod t_chrony_poller {
                     .contains("Could not parse error bound value to i64"));
             }
         }
+    }
+}
+
+/// Verification wrappers exposing the private poller to an external harness.
+#[cfg(feature = "verif")]
+pub mod verif {
+    use super::*;
+
+    /// Handle on the real `ClockErrorBoundPoller`.
+    pub struct Poller(ClockErrorBoundPoller);
+
+    impl Default for Poller {
+        fn default() -> Self {
+            Poller(ClockErrorBoundPoller::default())
+        }
+    }
+
+    impl Poller {
+        pub fn is_within_grace_period(&self) -> bool {
+            self.0.is_within_grace_period()
+        }
+    }
+
+    impl ChronyOperations for &mut Poller {
+        fn get_tracking(&mut self) -> Option<Tracking> {
+            self.0.get_tracking()
+        }
+        fn is_within_grace_period(&self) -> bool {
+            self.0.is_within_grace_period()
+        }
+    }
+
+    /// Run the real poller loop on a persistent poller until it receives `ThreadAbort`.
+    pub fn run_poller(ctx: Context, poller: &mut Poller, phc_info: Option<PhcInfo>, sleep: Duration) {
+        run_clock_error_bound_poller(ctx, poller, phc_info, sleep)
+    }
+
+    pub fn phc_error_bound_from_path(path: &std::path::Path) -> Result<i64, std::io::Error> {
+        get_phc_error_bound_from_path(path)
     }
 }
